@@ -275,6 +275,8 @@ func genTables() string {
 	tbl(pSlog, "flags", "Z")
 	tbl(pSlog, "minimalMessageWidth", "Z")
 	tbl(pSlog, "levelOutputWidth", "Z")
+	tbl(pSlog, "hex", "bytes")
+	tbl(pSlog, "safeSet", "list (Z * bool)")
 	tbl(pTimes, "unitMap", "list (bytes * Z)")
 	// size of the fixed array of the short duration formatter
 	if fd := findFunc(pTimes, "", "shortDur"); fd != nil {
